@@ -130,29 +130,26 @@ def expected_literals(cleaned, postgres):
     return exp
 
 
-def twin(f):
-    """same shape, benign values: tag names become distinct safe letters (order preserved), tag values
-    become distinct safe strings (equal values stay equal, empty stays empty)"""
-    t = {}
-    names = sorted(k for k in f if k.startswith("#") and len(k) == 2 and isinstance(f[k], list))
+def twin_req(filters):
+    """same shape, benign values, for all filters of one REQ together: tag names become safe letters and tag values safe
+    strings by one REQ-wide renaming (equal names / values stay equal, distinct stay distinct, empty stays empty), so
+    that clauses which are textually equal in the original are equal in the twin and vice versa"""
     safe = "abcdefghijklmnopqrstuvwxyz"
-    for k, v in f.items():
-        if k in names:
-            if not all(isinstance(x, str) for x in v):
+    names = sorted({k for f in filters for k in f if k.startswith("#") and len(k) == 2 and isinstance(f[k], list)})
+    vals = {}
+    out = []
+    for f in filters:
+        t = {}
+        for k, v in f.items():
+            if k in names:
+                if not all(isinstance(x, str) for x in v):
+                    t[k] = v
+                    continue
+                t["#" + safe[names.index(k)]] = ["" if x == "" else vals.setdefault(x, "v%d" % len(vals)) for x in v]
+            else:
                 t[k] = v
-                continue
-            vals = {}
-            out = []
-            for x in v:
-                if x == "":
-                    out.append("")
-                else:
-                    vals.setdefault(x, "v%d" % len(vals))
-                    out.append(vals[x])
-            t["#" + safe[names.index(k)]] = out
-        else:
-            t[k] = v
-    return t
+        out.append(t)
+    return out
 
 
 def canon_skeleton(sk):
@@ -186,9 +183,9 @@ def check_text(report, scen, rec):
 
     storage = scen.sql.impl.storage
     tw = []
-    for f in rec["filters"]:
+    for f in twin_req(rec["filters"]):
         try:
-            tw.append(NostrQuery.model_validate(dict(twin(f))))
+            tw.append(NostrQuery.model_validate(dict(f)))
         except Exception:
             return
     if len(tw) != len(rec["cleaned"]):
